@@ -81,7 +81,12 @@ impl G {
     /// The statement of the property, literally: a node on a cycle of the
     /// input-determined dependency graph evaluates to its cycle default;
     /// every other node as from scratch with those defaults substituted.
-    pub fn oracle(&self, inputs: [Val; 2]) -> Vec<Val> {
+    pub fn oracle(&self, inputs: [Val; 2]) -> Vec<Val> { self.oracle_detached(inputs, &[]) }
+
+    /// `detached`: nodes whose reads happen in helper tasks that outlive the
+    /// executor; their edges are dependencies (and can close cycles) but do
+    /// not contribute to the value.
+    pub fn oracle_detached(&self, inputs: [Val; 2], detached: &[u8]) -> Vec<Val> {
         let en = self.enabled(inputs);
         let n = self.n;
         // reach[i][j]: path of length >= 1 from i to j
@@ -113,6 +118,7 @@ impl G {
                 for j in 0..n {
                     if en[i][j] {
                         match val[j] {
+                            Some(_) if detached.contains(&(i as u8)) => {}
                             Some(v) => s = (s + v) % 5,
                             None => ok = false,
                         }
@@ -330,6 +336,12 @@ pub struct SP {
     pub g: G,
     pub roots: Vec<u8>,
     pub inputs: [Val; 2],
+    /// nodes that read their targets concurrently
+    pub join: Vec<u8>,
+    /// nodes that read their targets in spawned helper tasks (joined)
+    pub spawn: Vec<u8>,
+    /// nodes whose helper tasks are not joined by the executor
+    pub detach: Vec<u8>,
 }
 
 pub fn s_scenario(p: SP) -> Arc<dyn Fn() + Send + Sync> {
@@ -340,6 +352,9 @@ pub fn s_scenario(p: SP) -> Arc<dyn Fn() + Send + Sync> {
             ystore::set_yield_mask(0);
             let prog = p.g.program();
             let sh = Shared::new_yielding(prog.clone());
+            *sh.join_nodes.lock().unwrap() = p.join.clone();
+            *sh.spawn_nodes.lock().unwrap() = p.spawn.clone();
+            *sh.detach_nodes.lock().unwrap() = p.detach.clone();
             let eng = rig::new_mem_engine_opt(&sh, true).await;
             {
                 let mut s = eng.input_session().await;
@@ -363,13 +378,82 @@ pub fn s_scenario(p: SP) -> Arc<dyn Fn() + Send + Sync> {
                 let _ = h.await;
             }
             xplore::exploring(false);
-            let want = p.g.oracle(p.inputs);
+            // nodes whose executor had been entered before the first executor
+            // was unwound: the cycle detection saw them in flight, so the
+            // "dependency read after the unwinding is never recorded" excuse
+            // (known finding F8) does not apply to them in this execution
+            // callee registrations the engine had made when the first
+            // executor was unwound (hook in register_callee, feature verif) =
+            // the wait-for graph the cycle detection could see. A node on a
+            // cycle of THAT graph must get its default; the "dependency read
+            // after the unwinding is never recorded" excuse (known finding F8)
+            // applies only to nodes that are on a cycle solely through reads
+            // registered later.
+            let n = p.g.n;
+            let mut req = vec![vec![false; n]; n];
+            let evs = sh.take_events();
+            let first_cycle = qbice_verif_rt::events::first_cycle_edges();
+            let edges = qbice_verif_rt::events::take_edges();
+            let visible = first_cycle.unwrap_or(0).min(edges.len());
+            let ids: Vec<(u128, u128)> = (0..n as u8).map(|j| rig::query_id_of(&prog, Key::C(j))).collect();
+            for (a, b) in &edges[..visible] {
+                if let (Some(i), Some(j)) = (ids.iter().position(|x| x == a), ids.iter().position(|x| x == b)) {
+                    req[i][j] = true;
+                }
+            }
+            if std::env::var("VH_C06_DEBUG").is_ok() {
+                let s: Vec<String> = evs.iter().map(|e| match e {
+                    crate::pq::Event::Enter { key, .. } => format!("E{key:?}"),
+                    crate::pq::Event::Exit { key, val, .. } => format!("X{key:?}={val:?}"),
+                    crate::pq::Event::Read { dep, val, .. } => format!("R{dep:?}={val}"),
+                    crate::pq::Event::Req { key, dep } => format!("Q{key:?}>{dep:?}"),
+                    crate::pq::Event::FirstUnwind { edges } => format!("U{edges}"),
+                }).collect();
+                let mut vis: Vec<String> = Vec::new();
+                for i in 0..n {
+                    for j in 0..n {
+                        if req[i][j] {
+                            vis.push(format!("{i}>{j}"));
+                        }
+                    }
+                }
+                eprintln!("{} | visible {}", s.join(" "), vis.join(","));
+            }
+            for k in 0..n {
+                for i in 0..n {
+                    for j in 0..n {
+                        if req[i][k] && req[k][j] {
+                            req[i][j] = true;
+                        }
+                    }
+                }
+            }
+            let in_flight: Vec<bool> = (0..n).map(|i| req[i][i]).collect();
+            // did the node's executor run to completion during the concurrent
+            // phase (its result was what the engine had to publish or replace)?
+            let mut completed = vec![false; n];
+            for e in &evs {
+                if let crate::pq::Event::Exit { key: Key::C(j), val: Some(_), .. } = e {
+                    completed[*j as usize] = true;
+                }
+            }
+            let mark = |j: usize| {
+                if !in_flight[j] {
+                    ""
+                } else if completed[j] {
+                    " [on a cycle of the callee registrations made before the cycle was detected; its executor completed]"
+                } else {
+                    " [on a cycle of the callee registrations made before the cycle was detected; its executor was cancelled together with its caller]"
+                }
+            };
+            let want = p.g.oracle_detached(p.inputs, &p.detach);
             for (r, v) in res.lock().unwrap().iter() {
                 if *v != want[*r as usize] {
                     xplore::report_violation(format!(
                         "concurrent query C({r}) = {v}, the property demands \
-                         {} (expected all {want:?})",
-                        want[*r as usize]
+                         {} (expected all {want:?}){}",
+                        want[*r as usize],
+                        mark(*r as usize)
                     ));
                 }
             }
@@ -382,12 +466,16 @@ pub fn s_scenario(p: SP) -> Arc<dyn Fn() + Send + Sync> {
                 if v != want[j as usize] {
                     xplore::report_violation(format!(
                         "after concurrent entry: query C({j}) = {v}, the \
-                         property demands {}",
-                        want[j as usize]
+                         property demands {}{}",
+                        want[j as usize],
+                        mark(j as usize)
                     ));
                 }
             }
             drop(te);
+            if std::env::var("VH_C06_DEBUG").is_ok() {
+                eprintln!("FIN {fin:?} want {want:?}");
+            }
             xplore::observe(format!("{fin:?}{:?}", res.lock().unwrap()));
             drop(eng);
         });
@@ -421,13 +509,31 @@ pub fn s_params(thorough: bool) -> Vec<(SP, usize)> {
         ],
         fw: vec![false, false, false, false],
     };
+    // two cycles through the shared tail 3 -> 4 -> 0; node 0 reads 1 and 2
+    // concurrently, both converge on 3
+    let g5 = G {
+        n: 5,
+        adj: vec![
+            vec![No, Fixed, Fixed, No, No],
+            vec![No, No, No, Fixed, No],
+            vec![No, No, No, Fixed, No],
+            vec![No, No, No, No, Fixed],
+            vec![Fixed, No, No, No, No],
+        ],
+        fw: vec![false; 5],
+    };
     let d = |q: usize, t: usize| if thorough { t } else { q };
     vec![
-        (SP { g: g2.clone(), roots: vec![0, 1], inputs: [0, 0] }, d(2, 3)),
-        (SP { g: g3.clone(), roots: vec![0, 1], inputs: [0, 0] }, d(2, 3)),
-        (SP { g: g3, roots: vec![0, 1, 2], inputs: [0, 0] }, d(1, 2)),
-        (SP { g: g4.clone(), roots: vec![1, 2], inputs: [0, 0] }, d(2, 3)),
-        (SP { g: g4, roots: vec![3, 2], inputs: [0, 0] }, d(2, 2)),
+        (SP { g: g5.clone(), roots: vec![0], inputs: [0, 0], join: vec![0], spawn: vec![], detach: vec![] }, d(2, 3)),
+        (SP { g: g5.clone(), roots: vec![0, 3], inputs: [0, 0], join: vec![0], spawn: vec![], detach: vec![] }, d(1, 2)),
+        // the same with the two reads of node 0 in spawned helper tasks
+        (SP { g: g5.clone(), roots: vec![0], inputs: [0, 0], join: vec![], spawn: vec![0], detach: vec![] }, d(2, 3)),
+        (SP { g: g5, roots: vec![0, 4], inputs: [0, 0], join: vec![], spawn: vec![0], detach: vec![] }, d(1, 2)),
+        (SP { g: g2.clone(), roots: vec![0, 1], inputs: [0, 0], join: vec![], spawn: vec![], detach: vec![] }, d(2, 3)),
+        (SP { g: g3.clone(), roots: vec![0, 1], inputs: [0, 0], join: vec![], spawn: vec![], detach: vec![] }, d(2, 3)),
+        (SP { g: g3, roots: vec![0, 1, 2], inputs: [0, 0], join: vec![], spawn: vec![], detach: vec![] }, d(1, 2)),
+        (SP { g: g4.clone(), roots: vec![1, 2], inputs: [0, 0], join: vec![], spawn: vec![], detach: vec![] }, d(2, 3)),
+        (SP { g: g4, roots: vec![3, 2], inputs: [0, 0], join: vec![], spawn: vec![], detach: vec![] }, d(2, 2)),
     ]
 }
 
@@ -674,7 +780,11 @@ pub fn check() -> i32 {
                         .nth(1)
                         .and_then(|r| r.split(')').next())
                         .and_then(|n| n.parse::<usize>().ok());
-                    t.extend(tags_of(&p.g, p.inputs, node));
+                    if f.msg.contains("its executor was cancelled together with its caller") {
+                        t.push("F18-cycle-member-cancelled-with-its-caller".into());
+                    } else if !f.msg.contains("on a cycle of the callee registrations made before the cycle was detected") {
+                        t.extend(tags_of(&p.g, p.inputs, node));
+                    }
                     t
                 },
                 replay: json!({"check": "c06s", "thorough": thorough,
